@@ -54,3 +54,14 @@ impl VTryInto<u32> for u64 {
     open spec fn vconv(self) -> u32 { self as u32 }
     fn vtry_into(self) -> (r: Result<u32, ConvErr>) { if self <= 0xFFFF_FFFF { Ok(self as u32) } else { Err(ConvErr { _opaque: 0 }) } }
 }
+
+// --- std contracts vstd does not ship (ASSUMED, taken from the std documentation); they keep small edits of the
+//     extracted code inside the verifiable subset
+pub assume_specification<T>[ Option::<T>::or ](a: Option<T>, b: Option<T>) -> (r: Option<T>)
+    ensures r == (if a is Some { a } else { b });
+pub assume_specification<T, U>[ Option::<T>::and ](a: Option<T>, b: Option<U>) -> (r: Option<U>)
+    ensures r == (if a is Some { b } else { None::<U> });
+pub assume_specification<T>[ Option::<T>::xor ](a: Option<T>, b: Option<T>) -> (r: Option<T>)
+    ensures r == (if a is Some && b is None { a } else if a is None && b is Some { b } else { None::<T> });
+pub assume_specification<T>[ bool::then_some::<T> ](b: bool, t: T) -> (r: Option<T>)
+    ensures r == (if b { Some(t) } else { None::<T> });
